@@ -1068,7 +1068,70 @@ fn drop_race(gz: bool, trials: usize) -> Result<(), String> {
     Ok(())
 }
 
+/// "… and what was queued is released, instead of the writer buffering … for a consumer that no
+/// longer exists": chunks are queued (and, in half of the cases, a waker parked), the body is
+/// dropped while the writer stays alive and idle, and the bytes the body held must be gone at
+/// once — not when the writer next calls in. Then the writer is told.
+fn release_on_body_drop(em: &mut Emit) {
+    use http_body::Body as _;
+    use std::io::Write as _;
+    let live = || crate::LIVE_BYTES.load(std::sync::atomic::Ordering::SeqCst);
+    // (chunk size, bytes written and flushed, gzip, a waker parked first)
+    for (cap, total, gz, park) in [(4096usize, 4usize << 20, false, false), (64, 1 << 20, false, true), (65536, 8 << 20, false, true), (4096, 4 << 20, true, false)] {
+        let mut rb = http::Request::get("/");
+        if gz {
+            rb = rb.header("accept-encoding", "gzip");
+        }
+        let req = rb.body(()).unwrap();
+        let r = std::panic::catch_unwind(std::panic::AssertUnwindSafe(|| {
+            let (resp, w) = http_serve::streaming_body(&req).with_chunk_size(cap).with_gzip_level(1).build::<Bytes, BoxError>();
+            let mut w = w.unwrap();
+            let mut body = Box::pin(resp.into_body());
+            if park {
+                // nothing queued yet: the poll parks a waker in the shared state
+                let log = Arc::new(Mutex::new(vec![]));
+                let waker = mk_waker(1, &log);
+                let mut cx = std::task::Context::from_waker(&waker);
+                let _ = body.as_mut().poll_frame(&mut cx);
+            }
+            // incompressible, so that gzip queues about as much as was written
+            let mut x = 0x9E37_79B9_7F4A_7C15u64;
+            let payload: Vec<u8> = (0..total).map(|_| { x ^= x << 13; x ^= x >> 7; x ^= x << 17; x as u8 }).collect();
+            let base = live();
+            let _ = w.write_all(&payload);
+            let _ = w.flush();
+            let queued = live() - base;
+            drop(body);
+            let after_drop = live() - base;
+            let flush_fails = { let _ = w.write_all(b"x"); w.flush().is_err() };
+            drop(w);
+            drop(payload);
+            (queued, after_drop, flush_fails)
+        }));
+        let (ok, why) = match r {
+            Err(_) => (false, "panic".to_string()),
+            Ok((queued, after_drop, flush_fails)) => {
+                if queued < total as i64 / 2 {
+                    (false, format!("only {} bytes were queued for {} written and flushed", queued, total))
+                } else if after_drop > queued / 4 {
+                    (false, format!("{} of the {} bytes queued are still allocated after the body was dropped (the writer is alive and idle)", after_drop, queued))
+                } else if !flush_fails {
+                    (false, "flush succeeded after the body was dropped".to_string())
+                } else {
+                    (true, String::new())
+                }
+            }
+        };
+        em.pred_only(
+            &format!("chunk size {}, {} bytes written and flushed (gzip={}, waker parked={}), body dropped while the writer idles: what was queued is released at once", cap, total, gz, park),
+            &pred(ok, || why.clone()),
+            "release",
+        );
+    }
+}
+
 pub fn c11(em: &mut Emit, thorough: bool, seed: u64) {
+    release_on_body_drop(em);
     let mut rng = Rng::new(seed ^ 0xC11);
     for gz in [false, true] {
         let trials = if thorough { 3000 } else { 400 };
